@@ -1,7 +1,9 @@
 (* Corr/C10.v — executable check for one C10 case: two posets over one generated order, a
    warm-up history on each, one set operation.  Compared with the model of the code and with
-   the cache-free spec: the element list of the result, every query on the result, and the
-   harness's deep comparison of the operands before/after.  For the recorded defect D15 the
+   the cache-free spec: the element list of the result, every query on the result, on a second
+   evaluation of the same operation and on the operation with the operands exchanged, every
+   query on BOTH OPERANDS afterwards, and the harness's deep comparison of the operands'
+   state before/after.  For the recorded defect D15 the
    code carries 10 * (index of the guard that is false). *)
 From FCA Require Export Corr.C09 Model.PosetAlgebra.
 
@@ -11,12 +13,16 @@ Record c10_case := {
   a_els_b : list nat;
   a_cache_a : bool;
   a_cache_b : bool;
-  a_warm_a : list (op nat);
+  a_warm_a : list (op nat);        (* histories with queries AND mutations *)
   a_warm_b : list (op nat);
   a_op : setop;
-  a_res : out nat;                 (* implementation: elements of the result, or the exception *)
-  a_unchanged : bool;              (* implementation: operands deep-equal before and after *)
-  a_final : list (out nat)         (* implementation: every query on the result, then its elements *)
+  a_res : out nat;                 (* implementation: elements of a ⊙ b, or the exception *)
+  a_unchanged : bool;              (* implementation: operands deep-equal before and after all operations *)
+  a_final : list (out nat);        (* implementation: every query on a ⊙ b, then its elements *)
+  a_final2 : list (out nat);       (* the same for a ⊙ b evaluated a second time *)
+  a_final_rev : list (out nat);    (* the same for b ⊙ a, evaluated after the two others *)
+  a_after_a : list (out nat);      (* every query on operand a AFTER the operations, then its elements *)
+  a_after_b : list (out nat)
 }.
 
 Definition c10_operands (c : c10_case) : state nat * state nat :=
@@ -24,27 +30,47 @@ Definition c10_operands (c : c10_case) : state nat * state nat :=
   (fst (run nat leq Nat.eqb (init nat (a_els_a c) (a_cache_a c)) (a_warm_a c)),
    fst (run nat leq Nat.eqb (init nat (a_els_b c) (a_cache_b c)) (a_warm_b c))).
 
-Definition c10_model (c : c10_case) : out nat * bool * list (out nat) :=
+Definition all_answers (leq : nat -> nat -> bool) (s : state nat) : list (out nat) :=
+  let '(s', fin) := run nat leq Nat.eqb s (final_queries (length (els s))) in fin ++ [OEls (els s')].
+Definition spec_answers (leq : nat -> nat -> bool) (l : list nat) (uc : bool) : list (out nat) :=
+  map (spec_query nat leq Nat.eqb l uc) (final_queries (length l)) ++ [OEls l].
+
+Definition c10_out := (out nat * bool * list (out nat) * list (out nat) * list (out nat) *
+                       list (out nat) * list (out nat))%type.
+
+(* the operations do not touch the operands (the model is a function of their states), so the
+   second a ⊙ b equals the first and the operands answer afterwards as they did before *)
+Definition c10_model (c : c10_case) : c10_out :=
   let leq := mleq (a_matrix c) in
   let '(sa, sb) := c10_operands c in
   let r := combine nat Nat.eqb (a_op c) sa sb in
-  let '(r', fin) := run nat leq Nat.eqb r (final_queries (length (els r))) in
-  (OEls (els r), true, fin ++ [OEls (els r')]).
+  let fr := all_answers leq r in
+  (OEls (els r), true, fr, fr, all_answers leq (combine nat Nat.eqb (a_op c) sb sa),
+   all_answers leq sa, all_answers leq sb).
 
-Definition c10_spec (c : c10_case) : out nat * bool * list (out nat) :=
+Definition c10_spec (c : c10_case) : c10_out :=
   let leq := mleq (a_matrix c) in
   let ea := fst (spec_run nat leq Nat.eqb (a_els_a c) (a_cache_a c) (a_warm_a c)) in
   let eb := fst (spec_run nat leq Nat.eqb (a_els_b c) (a_cache_b c) (a_warm_b c)) in
   let comb := els_comb nat Nat.eqb (a_op c) ea eb in
-  (OEls comb, true,
-   map (spec_query nat leq Nat.eqb comb (a_cache_a c)) (final_queries (length comb)) ++ [OEls comb]).
+  let fr := spec_answers leq comb (a_cache_a c) in
+  (OEls comb, true, fr, fr,
+   spec_answers leq (els_comb nat Nat.eqb (a_op c) eb ea) (a_cache_b c),
+   spec_answers leq ea (a_cache_a c), spec_answers leq eb (a_cache_b c)).
 
-Definition c10_same (c : c10_case) (r : out nat * bool * list (out nat)) : bool :=
-  let '(a, u, f) := r in
-  out_eqb (a_res c) a && Bool.eqb (a_unchanged c) u && outs_eqb (a_final c) f.
+Definition c10_same (c : c10_case) (r : c10_out) : bool :=
+  let '(a, u, f, f2, fr, aa, ab) := r in
+  out_eqb (a_res c) a && Bool.eqb (a_unchanged c) u && outs_eqb (a_final c) f &&
+  outs_eqb (a_final2 c) f2 && outs_eqb (a_final_rev c) fr &&
+  outs_eqb (a_after_a c) aa && outs_eqb (a_after_b c) ab.
 
+(* the guard of a ⊙ b, else that of b ⊙ a (same operator, hence the same finding index) *)
 Definition c10_guard (c : c10_case) : nat :=
-  let '(sa, sb) := c10_operands c in guard_index nat Nat.eqb (a_op c) sa sb.
+  let '(sa, sb) := c10_operands c in
+  match guard_index nat Nat.eqb (a_op c) sa sb with
+  | 0 => guard_index nat Nat.eqb (a_op c) sb sa
+  | k => k
+  end.
 
 Definition c10_check (c : c10_case) : nat :=
   match code_of (c10_same c (c10_model c)) (c10_same c (c10_spec c)) with
